@@ -15,13 +15,13 @@ import (
 	mlog "mosn.io/mosn/pkg/log"
 	"mosn.io/mosn/pkg/mosn"
 	"mosn.io/mosn/pkg/protocol/xprotocol"
-	"mosn.io/mosn/pkg/upstream/cluster"
 	"mosn.io/mosn/pkg/protocol/xprotocol/bolt"
 	"mosn.io/mosn/pkg/protocol/xprotocol/boltv2"
 	"mosn.io/mosn/pkg/protocol/xprotocol/dubbo"
 	"mosn.io/mosn/pkg/protocol/xprotocol/dubbothrift"
 	"mosn.io/mosn/pkg/protocol/xprotocol/tars"
 	xstream "mosn.io/mosn/pkg/stream/xprotocol"
+	"mosn.io/mosn/pkg/upstream/cluster"
 	"mosn.io/mosn/pkg/verifhook"
 
 	_ "mosn.io/mosn/pkg/filter/network/connectionmanager"
